@@ -7,6 +7,9 @@ specification's.
 import Mqtt.Driver.AckQ
 import Mqtt.Driver.Topics
 import Mqtt.Driver.Broker
+import Mqtt.Driver.KeepAlive
+import Mqtt.Driver.Client
+import Mqtt.Driver.Conc
 
 namespace Mqtt.Driver
 
@@ -14,6 +17,8 @@ structure DState where
   ackq : AckQ.St := AckQ.St.init
   topics : Topics.St := Topics.St.init
   broker : Broker.St := {}
+  ka : KeepAlive.St := {}
+  client : Client.St := {}
 
 def dispatch (st : DState) (line : String) : DState × String × String :=
   match words line with
@@ -26,6 +31,13 @@ def dispatch (st : DState) (line : String) : DState × String × String :=
   | "broker" :: rest =>
     let (a, m, s) := Broker.handle st.broker rest
     ({ st with broker := a }, m, s)
+  | "ka" :: rest =>
+    let (a, m, s) := KeepAlive.handle st.ka rest
+    ({ st with ka := a }, m, s)
+  | "client" :: rest =>
+    let (a, m, s) := Client.handle st.client rest
+    ({ st with client := a }, m, s)
+  | "conc" :: rest => let o := Conc.handle rest; (st, o, o)
   | [] => (st, "", "")
   | _ => (st, "bad-core", "bad-core")
 
